@@ -2470,6 +2470,11 @@ def rule_simdsib(rows, prop):
         rets = [f for f in r["facts"] if f["k"] == "return" and parse_call(f["a"])]
         fl = [f for f in rets if re.search(r"(_ps|ps\d*)\(", f["a"])]
         db = [f for f in rets if re.search(r"(_pd|pd\d*)\(", f["a"])]
+        # a scalar-lane intrinsic (_ss / _sd: operates on the lowest lane only, copies the others) in an operation on whole packs
+        lane = [f for f in rets if re.search(r"_mm\d*_\w+_(ss|sd)\(", f["a"])]
+        if lane:
+            n += 1
+            findings.append(finding("R-SIMDSIB", prop, r, lane[0]["a"], "simd op '%s' returns a scalar-lane intrinsic (_ss/_sd): only the lowest lane of the pack is computed" % op, lane[0].get("line"))); continue
         if not fl or not db:
             continue
         n += 1
